@@ -64,12 +64,7 @@ theorem packWith_ok (p : Packer) (audio : Bool) (pt : Int) (ts : Nat) (payload :
     simp only [hr, GoM.ok_bind, GoM.pure_eq]; exact Ok.triv _
   · obtain ⟨r, hr, _⟩ := packAvcc_ok true payload
     simp only [hr, GoM.ok_bind, GoM.pure_eq]; exact Ok.triv _
-  · obtain ⟨r, hr, _⟩ := payloadPack_ok .aac payload
-    simp only [hr, GoM.ok_bind, GoM.pure_eq]; exact Ok.triv _
-  · obtain ⟨r, hr, _⟩ := payloadPack_ok .pcm payload
-    simp only [hr, GoM.ok_bind, GoM.pure_eq]; exact Ok.triv _
-  · obtain ⟨r, hr, _⟩ := payloadPack_ok .opus payload
-    simp only [hr, GoM.ok_bind, GoM.pure_eq]; exact Ok.triv _
+  all_goals (simp only [GoM.ok_bind, GoM.pure_eq]; exact Ok.triv _)
 
 /-- the fields the analysis stage is about -/
 def Same (a b : St) : Prop := a.msgCache = b.msgCache ∧ a.analyzeDone = b.analyzeDone
@@ -83,7 +78,7 @@ theorem getVideoPacker_cache (s : St) : Same (getVideoPacker s).1 s := by
   all_goals exact ⟨rfl, rfl⟩
 
 /-- what `FeedRtmpMsg` checks before a message is cached or remuxed -/
-def LenOk (m : Msg) : Prop := (m.typeId = tAudio → 2 < m.payload.length) ∧ (m.typeId = tVideo → 5 < m.payload.length)
+def LenOk (m : Msg) : Prop := (m.typeId = tAudio → 2 ≤ m.payload.length) ∧ (m.typeId = tVideo → 5 < m.payload.length)
 
 /-- every cached message passed the length checks -/
 def St.WF (s : St) : Prop := ∀ m ∈ s.msgCache, LenOk m
